@@ -527,7 +527,9 @@ pub struct C27Case {
 const MBT_MS: [u64; 5] = [50, 100, 300, 1000, 2000];
 
 pub fn c27_strategy() -> BoxedStrategy<C27Case> {
-    (1u8..4, 0u8..5, prop::collection::vec((0u8..2, prop_oneof![3 => Just(0u16), 1 => 0u16..300]), 2..16), prop_oneof![1 => Just(0u16), 3 => 0u16..4000], tape_strategy(40))
+    // writes: (instance, pause after the write in ms); a pause of 290..299 means: no pause, and the instance is
+    // unregistered BEFORE this write (its unacknowledged samples stay in the history and keep counting)
+    (1u8..4, 0u8..5, prop::collection::vec((0u8..2, prop_oneof![6 => Just(0u16), 2 => 0u16..290, 1 => 290u16..300]), 2..16), prop_oneof![1 => Just(0u16), 3 => 0u16..4000], tape_strategy(40))
         .prop_map(|(depth, mbt, writes, partition_ms, tape)| C27Case { depth, mbt, writes, partition_ms, tape })
         .boxed()
 }
@@ -566,6 +568,14 @@ async fn c27_scenario(c: C27Case) -> FlowObs {
         if exec::now_ns() >= partition_until && c.partition_ms > 0 {
             with_world(|w| w.net.endpoints[idx].connected = true);
         }
+        let pause = &(if *pause >= 290 {
+            if ws.writer.unregister_instance(KeyedData { id: *inst, seq: 0, blob: vec![] }, None).await.is_ok() {
+                classes.insert("instance_unregistered_before_a_write".to_string());
+            }
+            0u16
+        } else {
+            *pause
+        });
         seq += 1;
         let s0 = exec::now_ns();
         let res = timeout(mbt + 10_000, ws.writer.write(KeyedData { id: *inst, seq, blob: blob_for(seq, 8) }, None)).await;
